@@ -31,9 +31,9 @@ func init() {
 var c02Patterns = []string{"_a_b", "_a_b_c", "_a_c", "a_b", "abc", "_zz_unused", "_a_*", "_a_b_*", "_a_b_c_*", "a_*", "_ab_*", "_x_*", "a_b_*", "*", "_a*", "a_*_b"}
 
 type c02Case struct {
-	Loggers []string `json:"logger_tags"` // tags attribute of logger l0, l1, ...
-	Root    string   `json:"root"`        // "none" | "plain" | "tags"
-	ViaProp bool `json:"tags_via_property,omitempty"` // every tag list is given as ${property} instead of literally
+	Loggers []string `json:"logger_tags"`                 // tags attribute of logger l0, l1, ...
+	Root    string   `json:"root"`                        // "none" | "plain" | "tags"
+	ViaProp bool     `json:"tags_via_property,omitempty"` // every tag list is given as ${property} instead of literally
 }
 
 // refRoute returns the serving logger name ("l0".., "root" or "console") per tag, or an error.
